@@ -35,7 +35,7 @@ func checkC18(c *Ctx) {
 	c.modelCheckConc([]string{"scan", "scan2"}, nil)
 	nsim, keep := 400, 24
 	if !c.Quick() {
-		nsim, keep = 20000, 1500
+		nsim, keep = 20000, 900
 	}
 	var scheds []concSched
 	for _, mix := range []string{"scan", "scan2"} {
